@@ -119,6 +119,16 @@ CHECKS = {
         "note": "Trusted: Python ast, E1 resolver, numpy slicing with step -1 reverses an axis, valid inputs satisfy lo < hi (enforced by the Region constructors, which are checked).",
         "technique": "static analysis: abstract evaluation of class-layer methods to canonical forms; sibling agreement between array flips and region reflections; exhaustive abstract interpretation over a finite order domain",
     },
+    "C20": {
+        "text": "Decides, for all triangle sets: vertex-array up-sampling produces exactly the three corner children {v_k, m_ka, m_kb} and the central child {m_01, m_12, m_20}, m_ab = (v_a+v_b)/2 (set equality of canonical forms: exact 4-way tiling, "
+                "quartered area, original vertices kept); the neighbourhood is the original set plus the three edge reflections v_a+v_b-v_k and nothing else; for the integer-coordinate representation the lattice geometry is verified "
+                "ALGEBRAICALLY: with centre = scaling*c + offsets and vertex k = centre + flip*offset_k read from the class, the four children of a lattice triangle (coordinates 2c+d_j, side/2, new offsets, flip state) have exactly the vertex "
+                "sets of its midpoint subdivision, and its three lattice neighbours are its edge reflections - identities in cx, cy, side, offsets, for both orientations; selection / conversion keep geometry (unique rows + inverse map, "
+                "lattice parameters forwarded unchanged); Point.mask is the barycentric test with all three coordinates in [0,1] and every Shape.mask override ORs in super().mask(triangles). "
+                "Not decided: floating-point tolerance for coincident vertices (np.unique), the mesh generated by for_limits_and_scale.",
+        "note": "Trusted: Python ast, E1 resolver, numpy stack / concatenate / unique semantics, parity arithmetic of the lattice offsets (done by the rule on integers).",
+        "technique": "static analysis: abstract evaluation to canonical forms with set-of-children comparison; algebraic verification of the lattice identities by polynomial normal forms; override-chain rule",
+    },
 }
 
 NOT_APPLICABLE = {f"C{n:02d}": PENDING for n in range(1, 21) if f"C{n:02d}" not in CHECKS}
